@@ -1,6 +1,6 @@
 \* simulation (quick tier): one random alternative per step; every closed behaviour is printed as a vector
 CONSTANTS
-  Impl = "intended"
+  Impl = "current"
   Apis = {"New", "NewWith", "Writer", "WriterSeek"}
   MaxTracks = 3
   MaxPackets = 8
